@@ -352,7 +352,7 @@ class C31(Prop):
                         faces.append([(2, 2, z), (4, 2, z), (4, 4, z), (2, 4, z)])
                     pieces = [["box", [0, 0, 0], [4, 2, h]], ["box", [2, 2, 0], [4, 4, h]],
                               ["box", [2, 1, 0], [4, 3, h]]]
-                pts = [[F(rng.randint(-2, 12), 2) for _ in range(3)] for _ in range(10)]
+                pts = [[F(rng.randint(-1, 10), 2) for _ in range(3)] for _ in range(10)]
                 yield {"fn": "polyhedron", "faces": [[list(p) for p in f] for f in faces],
                        "pieces": pieces, "pts": [[str(x) for x in p] for p in pts]}
 
